@@ -42,7 +42,10 @@ func newWorld(injection bool) *world {
 	w := &world{}
 	w.ws = vws.W()
 	w.ws.OnDial = func(u *url.URL, h http.Header) (*vws.Conn, error) {
-		c, s := vws.Pair("agent-ws", "backend-ws")
+		if strings.Contains(u.Path, "fail") {
+			return nil, fmt.Errorf("dial tcp: connection refused")
+		}
+		c, s := vws.Pair("agent-ws"+u.Path, "backend-ws"+u.Path)
 		w.clients = append(w.clients, c)
 		w.servers = append(w.servers, s)
 		return c, nil
@@ -750,6 +753,79 @@ func blockedList(r *vs.Result) string {
 	return strings.Join(p, "; ")
 }
 
+// c12Opens: several opens in flight at once, some of whose dials fail; afterwards a message
+// sent on each live session must arrive at the backend connection that was dialled for it.
+func c12Opens(paths []string, pb int) vx.Scenario {
+	return vx.Scenario{Name: fmt.Sprintf("c12/opens/%v", paths), PB: pb, MaxSteps: 20000, MaxTime: time.Minute,
+		Setup: func(s *vs.Sched) func(*vs.Result) vx.Exec {
+			w := newWorld(false)
+			ids := make([]string, len(paths))
+			statuses := make([]int, len(paths))
+			opened := 0
+			for i, p := range paths {
+				i, p := i, p
+				s.Thread(fmt.Sprintf("open%d", i), func() {
+					r := w.call("open", "ws://client.example/"+p, nil)
+					statuses[i] = r.status
+					var o struct {
+						ID string `json:"id"`
+					}
+					json.Unmarshal([]byte(r.body), &o)
+					vs.Touch(unsafe.Pointer(w))
+					ids[i] = o.ID
+					opened++
+				})
+			}
+			var dataStatus []int
+			s.Thread("talker", func() {
+				vs.Wait("all opens answered", unsafe.Pointer(w), func() bool { return opened == len(paths) })
+				vs.Quiesce()
+				for i, p := range paths {
+					if ids[i] == "" {
+						continue
+					}
+					b, _ := json.Marshal([]map[string]interface{}{{"id": ids[i], "msg": "hello " + p}})
+					dataStatus = append(dataStatus, w.call("data", string(b), nil).status)
+					vs.Quiesce()
+				}
+			})
+			return func(r *vs.Result) vx.Exec {
+				var x vx.Exec
+				base(r, &x)
+				seen := map[string]int{}
+				for i, p := range paths {
+					fails := strings.Contains(p, "fail")
+					if fails && statuses[i] == 200 || !fails && statuses[i] != 200 {
+						if len(r.Panics) == 0 {
+							x.Violations = append(x.Violations, fmt.Sprintf("OPENSTATUS: open of %s answered %d", p, statuses[i]))
+						}
+					}
+					if ids[i] != "" {
+						seen[ids[i]]++
+					}
+				}
+				for id, n := range seen {
+					if n > 1 {
+						x.Violations = append(x.Violations, fmt.Sprintf("SESSIONID-REUSED: session id %s was issued to %d sessions that are open at the same time (opens %v)", id, n, paths))
+					}
+				}
+				// each backend connection must have received exactly the message sent on its own session
+				for _, c := range w.clients {
+					want := "hello " + strings.TrimPrefix(c.Name, "agent-ws/")
+					got := ""
+					for _, m := range c.Sent {
+						got += string(m.Data) + "|"
+					}
+					if got != want+"|" && len(x.Violations) == 0 && len(r.Panics) == 0 {
+						x.Violations = append(x.Violations, fmt.Sprintf("CROSSED-SESSIONS: the backend websocket dialled for %q received %q, expected %q (opens %v)", c.Name, got, want, paths))
+					}
+				}
+				x.Obs = fmt.Sprintf("%v ids=%v data=%v", statuses, ids, dataStatus)
+				return x
+			}
+		}}
+}
+
 func c12Scenarios(th bool) []vx.Scenario {
 	var out []vx.Scenario
 	al := c12Alphabet()
@@ -769,6 +845,10 @@ func c12Scenarios(th bool) []vx.Scenario {
 	pb := 2
 	if th {
 		pb = 3
+	}
+	out = append(out, c12Opens([]string{"fail-a", "b", "c"}, pb), c12Opens([]string{"a", "fail-b"}, pb), c12Opens([]string{"a", "b"}, pb))
+	if th {
+		out = append(out, c12Opens([]string{"fail-a", "fail-b", "c", "d"}, 2))
 	}
 	preludes := [][]string{{}, {"bsend"}, {"data"}, {"bclose"}, {"bsend", "bclose"}}
 	pairs := [][]string{{"data", "close"}, {"close", "close"}, {"poll", "close"}, {"poll", "bclose"}, {"data", "bclose"}, {"data12", "bclose"}, {"data12", "close"}, {"poll", "bsend"}, {"data", "data"}, {"poll", "data"}}
